@@ -333,6 +333,28 @@ def fam_lineno(rng):
     return rs, cfg, gen
 
 
+def fam_morenl(rng):
+    """yymore() over newlines with %option yylineno, mostly %array: a rule or two that match newlines are always present, the
+    input has a newline every third character, a third of the actions are yymore() - the newlines of the kept prefix are
+    counted once, when it was matched, not again with the next match (C09)"""
+    rs = rules.gen_ruleset(rng, p_trail=0.0, nrules=rng.choice([1, 2, 3, 4]))
+    a = rng.choice([97, 98, 48])
+    for head in rng.sample([('chr', 10), ('plus', ('cls', ('br', False, [('c', a), ('c', 10)]))), ('cat', ('chr', a), ('chr', 10)),
+                            ('plus', ('chr', 10))], rng.choice([1, 2])):
+        rs.rules.insert(rng.randrange(len(rs.rules) + 1),
+                        {'scs': [], 'all': False, 'bol': False, 'head': head, 'trail': None, 'dollar': False})
+    cfg = rt.Config(backend=_backend(rng), topt=rng.choice(TOPTS), interactive=rng.choice([None, False]),
+                    lineno=True, yymore=True, array=rng.random() < 0.7)
+    inner = _ops_case(kinds=['more', 'more', 'return'])
+
+    def gen(rng, rs, cfg):
+        c = inner(rng, rs, cfg)
+        c['srcs'] = [[10 if rng.random() < 0.35 else b for b in w] for w in c['srcs']]
+        return c
+    gen.small = inner.small
+    return rs, cfg, gen
+
+
 def fam_scbol(rng):
     """start conditions and ^: two to four conditions, exclusive and inclusive ones in either order of declaration, half the
     rules anchored, most of them without a start condition; actions switch condition all the time and the input has a
@@ -722,5 +744,5 @@ def fam_nultail(rng):
     return rs, cfg, gen
 
 
-FAMILIES = {'nultail': fam_nultail, 'scbol': fam_scbol, 'stdioint': fam_stdioint, 'switchwrap': fam_switchwrap, 'memmore': fam_memmore, 'inputbol': fam_inputbol, 'sertrail': fam_sertrail, 'buffers': fam_buffers, 'include': fam_include, 'plain': fam_plain, 'ops': fam_ops, 'unput': fam_unput, 'reject': fam_reject,
+FAMILIES = {'nultail': fam_nultail, 'morenl': fam_morenl, 'scbol': fam_scbol, 'stdioint': fam_stdioint, 'switchwrap': fam_switchwrap, 'memmore': fam_memmore, 'inputbol': fam_inputbol, 'sertrail': fam_sertrail, 'buffers': fam_buffers, 'include': fam_include, 'plain': fam_plain, 'ops': fam_ops, 'unput': fam_unput, 'reject': fam_reject,
             'lineno': fam_lineno, 'trail': fam_trail, 'eof': fam_eof, 'deepstack': fam_deepstack, 'reads': fam_reads, 'bufreq': fam_bufreq, 'arraymore': fam_arraymore, 'wrapbol': fam_wrapbol}
